@@ -104,6 +104,9 @@ def run_indices(pid, tier, master, indices, want_plans=False):
             out = execute_plan(mod, plan)
             out["index"] = i
             out["seed"] = seed
+            upd = out.pop("plan_update", None)
+            if upd and out["violations"]:
+                plan = dict(plan, **upd)
             if want_plans or out["violations"] or out.get("harness_error") or i < 3:
                 out["plan"] = plan
             results.append(out)
@@ -273,7 +276,8 @@ def run_check(pid, tier, master, n_runs=None, workers=None, out=sys.stdout):
         "seed": int(master),
         "level": mod.LEVEL,
         "coverage": {
-            "evaluations": len(results),
+            "evaluations": sum(r.get("evaluations", 1) for r in results),
+            "runs": len(results),
             "distinct_nontrivial": len(keys),
             "rule": mod.RULE,
             "samples": samples,
